@@ -103,6 +103,12 @@ pub fn run(id: &str) -> i32 {
             use response_time_analysis::supply::SupplyBound;
             match catch_unwind(|| c.service_time(s((1u64 << 63) - 1))) { Err(_) => true, Ok(v) => v != d((1u64 << 63) + 1) }
         }
+        // KF16: Curve::from(&ArrivalCurvePrefix) is smaller than its source beyond the horizon (different continuation schemes)
+        "KF16" => {
+            let acp = ArrivalCurvePrefix::from_arrival_bound_until(&Sporadic::new(d(2), d(0)), d(5));
+            let cu = Curve::from(&acp);
+            cu.number_arrivals(d(6)) < acp.number_arrivals(d(6))
+        }
         _ => { eprintln!("unknown witness {}", id); return 2; }
     };
     println!("{} {}", id, if reproduces { "reproduces" } else { "does not reproduce" });
